@@ -266,7 +266,7 @@ func HarnessRolloutRestart() {
 	if withSplit {
 		vAssert(svc.SetRolloutSplit(p, allow) == nil, "rollout restart: split accepted")
 	}
-	vAssert(orig.installService(svc) == nil, "rollout restart: install")
+	vAssert(vInstall(orig, svc), "rollout restart: install")
 	rest := NewRouter("/state")
 	vAssert(rest.RestoreLastSavedState() == nil, "rollout restart: the state file restores")
 	rsvc := rest.services.Get("svc")
